@@ -28,6 +28,8 @@ CONSTANTS Peers,        \* names of the peers that may connect
           FrameKinds,   \* frame kinds the (adversarial) remote peers may send in this configuration
           BFMenu,       \* the piece sets a Bitfield frame may carry in this configuration
           Own0,         \* pieces owned and stored from the start (lets small configurations exercise uploads)
+          Bugs,         \* names of as-found behaviours switched back on ({} = the repaired design); used only by the
+                        \* *_AsFound configurations to show which invariant each defect breaks (see tools/spec_sensitivity.py)
           HS0           \* TRUE: connections start with the handshake exchange already done (configurations
                         \*       that are not about C08/C11 skip it to reach deeper histories)
 
@@ -61,6 +63,7 @@ NewH(inc) == [alive |-> TRUE, inc |-> inc, hs |-> FALSE, ch |-> TRUE, ka |-> 0, 
 DeadH == [NewH(FALSE) EXCEPT !.alive = FALSE]
 
 Conn == DOMAIN mp
+Bug(b) == b \in Bugs
 
 \* frames (f.t): "Handshake" "KeepAlive" "Choke" "Unchoke" "Interested" "NotInterested" "Have" "Bitfield"
 \*               "Request" "Piece" "Cancel"
@@ -92,7 +95,8 @@ Release(s, q) == IF q = None THEN s
 Reserve(s, p) == [s EXCEPT ![p] = IF @.k = "R" THEN [k |-> "R", n |-> @.n + 1]
                                   ELSE IF @.k = "M" THEN [k |-> "R", n |-> 1] ELSE @]
 HaveSet == {p \in Pieces : st[p].k = "H"}
-UnchokedNum == Cardinality({k \in Conn : ~mp[k].amCh /\ ~mp[k].opt})
+UnchokedNum == IF Bug("optCount") THEN Cardinality({k \in Conn : ~mp[k].amCh /\ mp[k].opt})
+               ELSE Cardinality({k \in Conn : ~mp[k].amCh /\ ~mp[k].opt})
 
 -----------------------------------------------------------------------------
 Init == /\ st = [p \in Pieces |-> [k |-> IF p \in Own0 THEN "H" ELSE "M", n |-> 0]]
@@ -190,7 +194,7 @@ HKeepAlive(k) == /\ Idle(k)
                  /\ Quiet
                  /\ UNCHANGED <<st, mp, round, mq, h, bq, stored, panic>>
 
-Ready(k) == Idle(k) /\ h[k].hs
+Ready(k) == Idle(k) /\ (h[k].hs \/ Bug("preHandshake"))
 
 HChoke(k) == /\ Ready(k)
              /\ h' = [h EXCEPT ![k] = [@ EXCEPT !.ch = TRUE, !.ka = 0]]
@@ -200,7 +204,7 @@ HChoke(k) == /\ Ready(k)
 
 HUnchoke(k) ==
   /\ Ready(k)
-  /\ IF ~h[k].ch
+  /\ IF ~h[k].ch /\ ~Bug("dupUnchoke")
      THEN \* repeated Unchoke: nothing changes
           /\ h' = [h EXCEPT ![k] = [@ EXCEPT !.ka = 0]]
           /\ Quiet /\ UNCHANGED mq
@@ -303,7 +307,7 @@ HBroadState(k) ==
   /\ bq' = [bq EXCEPT ![k] = Tail(@)]
   /\ LET v == Head(bq[k]).v IN              \* "C": we choke the peer, "U": we unchoke it, "-": not concerned
      IF v = "C" THEN /\ Write(k, <<F("Choke")>>)
-                     /\ h' = [h EXCEPT ![k] = [@ EXCEPT !.tx = None]]     \* nothing more is served
+                     /\ h' = [h EXCEPT ![k] = [@ EXCEPT !.tx = IF Bug("cacheAfterChoke") THEN @ ELSE None]]     \* nothing more is served
      ELSE IF v = "U" THEN Write(k, <<F("Unchoke")>>) /\ UNCHANGED h
      ELSE Quiet /\ UNCHANGED h
   /\ UNCHANGED <<st, mp, round, mq, stored, panic>>
@@ -389,8 +393,8 @@ MBitfield(k, c) ==
      /\ c \in PickSetIn(st, m1, k)
      /\ mp' = [m1 EXCEPT ![k] = [@ EXCEPT !.amInt = (c # None), !.amCh = @ /\ ~unch]]
      \* the unchoke itself is announced through the broadcast channel, like the rotation's decisions
-     /\ Reply(k, [t |-> "SendState", unch |-> FALSE, amInt |-> (c # None)])
-     /\ bq' = IF unch THEN [x \in Peers |-> IF h[x].alive
+     /\ Reply(k, [t |-> "SendState", unch |-> (unch /\ Bug("replyUnchoke")), amInt |-> (c # None)])
+     /\ bq' = IF unch /\ ~Bug("replyUnchoke") THEN [x \in Peers |-> IF h[x].alive
                                             THEN Append(bq[x], [t |-> "state", v |-> IF x = k THEN "U" ELSE "-"])
                                             ELSE bq[x]]
               ELSE bq
@@ -408,14 +412,14 @@ MRequest(k) ==
 MPieceTail(k, c, s) ==
   /\ c \in PickSetIn(s, mp, k)
   /\ IF c # None
-     THEN IF mp[k].ch
+     THEN IF mp[k].ch /\ ~Bug("reserveChoked")
           THEN \* the peer chokes us: nothing is reserved, a later Unchoke assigns work
                /\ st' = s
                /\ mp' = [mp EXCEPT ![k] = [@ EXCEPT !.pidx = None]]
                /\ Reply(k, [t |-> "Ignore"])
           ELSE /\ st' = Reserve(s, c)
                /\ mp' = [mp EXCEPT ![k] = [@ EXCEPT !.pidx = c]]
-               /\ Reply(k, [t |-> "SendRequest", p |-> c])
+               /\ Reply(k, IF mp[k].ch THEN [t |-> "Ignore"] ELSE [t |-> "SendRequest", p |-> c])
      ELSE /\ st' = s
           /\ mp' = [mp EXCEPT ![k] = [@ EXCEPT !.pidx = None, !.amInt = FALSE]]
           /\ Reply(k, [t |-> IF mp[k].int THEN "SendNotInterested" ELSE "PrepareKill"])
@@ -525,10 +529,10 @@ HReply(k, n) ==
             Resume(k, hk) /\ Write(k, <<F("Interested")>>) /\ UNCHANGED <<mq, bq>>
        [] r.t = "SendNotInterested" ->
             \* nothing to fetch: whatever was being assembled is dropped
-            /\ tailHave(<<F("NotInterested")>>, [hk EXCEPT !.rx = NoRx])
+            /\ tailHave(<<F("NotInterested")>>, IF Bug("keepRxOnNone") THEN hk ELSE [hk EXCEPT !.rx = NoRx])
             /\ UNCHANGED <<mq, bq>>
        [] r.t = "Ignore" /\ hk.trig.t = "Unchoke" ->
-            Resume(k, [hk EXCEPT !.rx = NoRx]) /\ Quiet /\ UNCHANGED <<mq, bq>>
+            Resume(k, IF Bug("keepRxOnNone") THEN hk ELSE [hk EXCEPT !.rx = NoRx]) /\ Quiet /\ UNCHANGED <<mq, bq>>
        [] r.t = "Ignore" /\ hk.trig.t = "Request" ->
             Resume(k, [hk EXCEPT !.tx = None]) /\ Quiet /\ UNCHANGED <<mq, bq>>
        [] r.t = "Ignore" /\ hk.trig.t \notin {"Unchoke", "Request"} ->
@@ -572,7 +576,7 @@ FrameStep(k) ==
   \/ FK("Request") /\ \E p \in Pieces \cup {NPieces + 1}, ok \in BOOLEAN : HRequest(k, p, ok)
   \/ FK("Piece") /\ \E p \in Pieces, b \in 1..3, good \in BOOLEAN : b <= NBlocks[p] /\ HPiece(k, p, b, good)
   \* a frame other than handshake / keep-alive before the handshake ends the connection
-  \/ ~h[k].hs /\ (FrameKinds \ {"Handshake", "KeepAlive", "Bad"}) # {} /\ HReject(k)
+  \/ ~h[k].hs /\ ~Bug("preHandshake") /\ (FrameKinds \ {"Handshake", "KeepAlive", "Bad"}) # {} /\ HReject(k)
 
 HandlerStep(k) ==
   \/ FrameStep(k) \/ HStart(k) \/ HConnFail(k) \/ HBroadHave(k) \/ HBroadState(k) \/ HTickKA(k)
